@@ -24,6 +24,8 @@ def run(ctx):
                       "loop (guard n <= end, step checked_add) and a descending one (guard n >= end, step checked_sub), "
                       "selected by start > end; each pushes format(n) before stepping; n starts at capture 1, end is "
                       "capture 2")
+    ctx.rule("R12-7", "the relative order of the other words is kept: positions recorded during a pass's scan are not used "
+                      "after the token vector's length changed, except inside the one descending edit-list loop (E-EDITLIST)")
     ctx.rule("R12-4", "the home directory is not interpreted as a regex replacement template")
     for crate in ctx.crates:
         res = etag.run_sites(ctx, "R12-1", crate, fn_filter=lambda p: p in PASSES)
@@ -38,6 +40,9 @@ def run(ctx):
             order_rule(ctx, crate, b)
         home_rule(ctx, crate)
         nonempty_rule(ctx, crate)
+        from .. import editlist
+        n_ = editlist.rule(ctx, crate, "R12-7", PASSES)
+        ctx.floor("R12-7", crate, "passes with a token vector", n_, 4)
         range_rule(ctx, crate)
 
 
@@ -80,6 +85,21 @@ def tag_rule(ctx, crate, b):
                key="R12-2|%s|insert#%d" % (b.path, n), where=b.loc(bb), crate=crate.kind, detail=detail)
         n += 1
     ctx.require(n >= 1, "R12-2", "R12-2|%s|anchor" % b.path, "no tokens.insert((tag, text)) found", b.path)
+    # a produced word written over the old text in place keeps the old (empty) tag: it must be re-tagged too
+    from .c13 import token_writes
+    tok, writes = token_writes(b)
+    k = 0
+    for bb, kind, text, tag in writes:
+        if kind != "text-assign":
+            continue
+        # a tag assignment to the same token in the same block or a dominating / post-dominating one
+        retag = [w for w in writes if w[1] == "tag-assign" and (w[0] == bb or b.dominates(w[0], bb) or b.dominates(bb, w[0]))]
+        ok = bool(retag)
+        ctx.ob("R12-2", b.path, "a produced word written in place is re-tagged (`\"` iff it contains a space)", ok,
+               key="R12-2|%s|in-place#%d" % (b.path, k), where=b.loc(bb), crate=crate.kind,
+               detail=None if ok else "the token keeps its empty tag: a file name / brace item with a space is later split "
+               "(for-lists), re-expanded ({m..n}) or read as a redirection")
+        k += 1
 
 
 def order_rule(ctx, crate, b):
